@@ -13,11 +13,11 @@ def replaceStep (names : List (Bytes × Nat)) (bytes : Bytes) (re : Nat) (atEnd 
     RState → Caps → RState × Bool :=
   fun st c =>
     let m := (c.get 0).getD ⟨0, 0⟩
-    if beyondRange re atEnd m.s then (st, false)
+    if beyondRange re atEnd m.s || decide (m.e > re) then (st, false)
     else
       let dst1 := st.dst ++ slice bytes st.lastMatch m.s
       let exp := interpolate (envOf bytes names c) tmpl
-      ({ lastMatch := min m.e re, dst := dst1 ++ exp,
+      ({ lastMatch := m.e, dst := dst1 ++ exp,
          spans := st.spans ++ [⟨dst1.length, dst1.length + exp.length⟩] }, true)
 
 theorem replace_unfold (capsAt : Nat → Option Caps) (names : List (Bytes × Nat))
@@ -44,8 +44,8 @@ theorem fold_spec (names : List (Bytes × Nat)) (bytes : Bytes) (re to : Nat) (a
   | cons c ms ih =>
     intro hms st
     have hce : (sp c).e ≤ re := hms c (by simp)
-    have hmin : min ((c.get 0).getD ⟨0, 0⟩).e re = ((c.get 0).getD ⟨0, 0⟩).e := by
-      simp only [sp] at hce; omega
+    have hbey : decide (((c.get 0).getD ⟨0, 0⟩).e > re) = false := by
+      simp only [sp] at hce; simp; omega
     have ih := ih (fun x hx => hms x (by simp [hx]))
     by_cases hk : keep re atEnd c = true
     · have hcond : beyondRange re atEnd (sp c).s = false := by
@@ -53,12 +53,13 @@ theorem fold_spec (names : List (Bytes × Nat)) (bytes : Bytes) (re to : Nat) (a
         unfold beyondRange
         cases atEnd <;> simp at hk ⊢ <;> omega
       have hstep : (replaceStep names bytes re atEnd tmpl st c).2 = true := by
-        unfold replaceStep; simp only [sp] at hcond; simp [hcond]
+        unfold replaceStep; simp only [sp] at hcond; simp only [hcond, hbey]; simp
       simp only [foldUntil, hstep, ↓reduceIte, List.takeWhile_cons, hk]
       rw [ih]
       unfold replaceStep
       simp only [sp] at hcond
-      simp [hcond, hmin, replaceAllSpec, slice, sp, List.append_assoc]
+      simp only [hcond, hbey]
+      simp [replaceAllSpec, slice, sp, List.append_assoc]
     · have hcond : beyondRange re atEnd (sp c).s = true := by
         unfold keep at hk
         unfold beyondRange
